@@ -15,8 +15,11 @@ From Coq Require Import Bool Arith Ascii String List.
 From CBI Require Import Lib.Data Lib.Res Gen.C13_tables Model.C13p Model.C13fs.
 Import ListNotations.
 
-(* one JSON object of the database; None = key absent.
-   e_argv = `arguments` when present, else shlex.split(command) *)
+(* one JSON item of the database; None = key absent.
+   e_argv = `arguments` when present, else shlex.split(command);
+   e_argv = None also stands for an item the schema rejects for another reason
+   (a property of the wrong JSON type, an item that is not an object): the
+   outcome is the same ValueError before anything else is looked at *)
 Record entry := { e_dir : option str; e_file : option str; e_argv : option (list str) }.
 
 Record out_entry := { o_file : str; o_incs : list str }.
